@@ -103,6 +103,8 @@ type State struct {
 	Dirty map[string]bool
 	// Flags: ghost events of this path (e.g. the base listener's Accept failed)
 	Flags map[string]bool
+	// CtxSel: per context term, the condition under which a select on this path took its Done case
+	CtxSel map[string]Term
 }
 
 func (s *State) clone() *State {
@@ -156,6 +158,12 @@ func (s *State) clone() *State {
 	t.Dirty = make(map[string]bool, len(s.Dirty))
 	for k, v := range s.Dirty {
 		t.Dirty[k] = v
+	}
+	if len(s.CtxSel) > 0 {
+		t.CtxSel = make(map[string]Term, len(s.CtxSel))
+		for k, v := range s.CtxSel {
+			t.CtxSel[k] = v
+		}
 	}
 	return t
 }
